@@ -190,7 +190,7 @@ Step(pc, st) ==
                  IF h2 < 1 THEN [succ |-> {}, probs |-> {Problem("operand-stack-underflow", pc, <<n, h>>)}]
                  ELSE [succ |-> {<<nxt, St(h2, hs, st.ret, st.exc, cap2)>>},
                        probs |-> (IF lost # {} THEN {Problem("captured-variable-discarded-without-being-closed", pc, <<n, lost>>)} ELSE {})
-                            \cup (IF n = "Closure" /\ \E x \in CapturedBy(pc, d) : x >= h THEN {Problem("closure-captures-a-slot-above-the-stack-height", pc, CapturedBy(pc, d))} ELSE {})]
+                            \cup (IF n = "Closure" /\ \E x \in CapturedBy(pc, d) : x > h THEN {Problem("closure-captures-a-slot-above-the-stack-height", pc, CapturedBy(pc, d))} ELSE {})]
     IN [succ |-> r.succ \cup (IF n = "EndFinally" THEN {} ELSE excEdge), probs |-> base \cup r.probs]
 
 -----------------------------------------------------------------------------
